@@ -37,7 +37,11 @@ LEVEL_TEXT = (
     "constants, folded integer constant expressions, and x+0 / 0+x / x*1 at integer types using (3) the typing invariant `every "
     "integer-typed local holds a value in the range of its type` (typing_invariant, from the checked facts tyCheck): "
     "CommonSubexpressionEliminationPass, RemoveAddZeroPass (integer types), replace_by half of ConstantFolder, and the folding "
-    "decision of CJumpPass: a conditional jump on two known integer constants becomes the jump it takes), and their composition. "
+    "decision of CJumpPass: a conditional jump on two known integer constants becomes the jump it takes; the integer chain rewrite "
+    "(y+-c1)+-c2 -> y+-c3 of ConstantFolder; and, using (4) the load-after-store invariant (load_after_store_invariant: a "
+    "memory-window invariant - between `store (int t) v p` and a later `load (int t) p` of the same block with no store / call / "
+    "CopyBlob / asm in between the bytes at p encode v - plus env x = env v wherever the load dominates), the forwarding half of "
+    "LoadAfterStorePass), and their composition. "
     "Every real output of those passes is fed through the checkers on every run (for CJumpPass: the folded jumps only, not its "
     "pruning of phi inputs and unreachable blocks). For all 9 passes and api.optimize "
     "at levels 0/1/2/s the property itself is evaluated on the real code: Spec.IR executes every entry function before and after on "
@@ -46,8 +50,10 @@ LEVEL_TEXT = (
 )
 LEVEL_NOTE = (
     "NOT proved (notes/C02.md): behaviour preservation of RemoveAddZeroPass on pointer/float types (p+0 is NOT p in Spec.IR with "
-    "16-bit pointers; pointer values are not range-checked), the chain rewrite (y+c1)+c2 of ConstantFolder, the pruning step of "
-    "CJumpPass (phi inputs of the not-taken arm, unreachable blocks), LoadAfterStorePass, CleanPass, Mem2RegPromotor, "
+    "16-bit pointers: ptr_add_zero_of_inRange proves it under the explicit hypothesis that the pointer is in range, Spec.IR does "
+    "not guarantee that), pointer-typed constant chains, the pruning step of CJumpPass (phi inputs of the not-taken arm, "
+    "unreachable blocks), the store-removal half of LoadAfterStorePass (deadStoreRemoval_full), CleanPass (no CFG-restructuring "
+    "validator: cleanPass_full), Mem2RegPromotor (promote_sound_full stated only), "
     "TailCallOptimization and the level pipelines: for these only the always-on failing-input search runs (absence of a failing input "
     "proves nothing). The validators do not cover removal of unused alloc/literal (memory layout changes), pointer/float constant "
     "folding, indirect-callee replacement. Trusted: Lean kernel; axioms propext/Classical.choice/Quot.sound; Spec.IR (validated "
